@@ -333,14 +333,18 @@ class Parametrized(Box):
         else:
             return Tensor.np
 
+    def _rebuild(self, data):
+        """ Same box with new data, used by subs and lambdify. """
+        return type(self)(data)
+
     def subs(self, *args):
         data = rsubs(self.data, *args)
-        return type(self)(data)
+        return self._rebuild(data)
 
     def lambdify(self, *symbols, **kwargs):
         from sympy import lambdify
         data = lambdify(symbols, self.data, dict(kwargs, modules=Tensor.np))
-        return lambda *xs: type(self)(data(*xs))
+        return lambda *xs: self._rebuild(data(*xs))
 
     @property
     def name(self):
@@ -521,6 +525,11 @@ class Scalar(Parametrized):
     def __repr__(self):
         return super().__repr__()[:-1] + (
             ', is_mixed=True)' if self.is_mixed else ')')
+
+    def _rebuild(self, data):
+        if type(self) is Scalar:  # the mixedness is not part of the class
+            return Scalar(data, is_mixed=self.is_mixed)
+        return super()._rebuild(data)
 
     @property
     def array(self):
